@@ -6,6 +6,16 @@ import os
 VERIF = os.path.dirname(os.path.dirname(os.path.abspath(__file__)))
 
 CHECKS = {
+    "C05": dict(level="exploration", design="4 C05",
+                text="Generated pairs of polygon groups (simple polygons of six families, snapped to force coincidences, sizes "
+                     "64..2^45 grid units, optional feedback of earlier outputs) through all four operations; oracle = exact "
+                     "integer winding-number membership at deliberately placed sample points outside a 2-grid-unit guard "
+                     "band, no overlap / |winding| <= 1 / consistent orientation of every output polygon, and the area "
+                     "identities. Sampled exploration with shrinking; one known finding (C05-K1) is classified by an "
+                     "independent direct call into Clipper and reported, not judged.",
+                note="Trusted: pbt/geomkit.py exact integer predicates. Errors below the 2-unit band are invisible (the "
+                     "statement excludes the rounding grid). Scaled coordinates stay below 2^50.",
+                technique="property-based testing (Hypothesis) with an exact point-membership oracle and metamorphic area identities"),
     "C11": dict(level="exploration", design="4 C11",
                 text="Generated repetitions of every kind (zero counts, negative/duplicate/zero vectors, explicit lists to "
                      "length 30) on every element kind are compared with my own enumeration: count, offsets, extrema, "
